@@ -46,18 +46,19 @@ theorem write_be4 (mem : List Region) (r : Nat) (name : String) (d : List Nat) (
         = .ok (mem.set r ⟨name, beBytes x3 ++ (beBytes x2 ++ (beBytes x1 ++ beBytes x0)), true⟩) := by
   obtain ⟨d0, d1, d2, d3, d4, d5, d6, d7, d8, d9, d10, d11, d12, d13, d14, d15, rfl⟩ := list16 d hd
   have hr : r < mem.length := (List.getElem?_eq_some_iff.mp hm).1
-  have w0 := write_region mem r name _ 0 (beBytes x3) hm (by simp [beBytes]) (by decide)
-  rw [Nat.add_zero] at w0
-  refine ⟨_, _, _, w0, ?_⟩
-  have w1 := write_region (mem.set r _) r name _ 4 (beBytes x2) (List.getElem?_set_self hr) (by simp [beBytes]) (by decide)
-  refine ⟨w1, ?_⟩
-  rw [List.set_set]
-  have w2 := write_region (mem.set r _) r name _ 8 (beBytes x1) (List.getElem?_set_self hr) (by simp [beBytes]) (by decide)
-  refine ⟨w2, ?_⟩
-  rw [List.set_set]
-  have w3 := write_region (mem.set r _) r name _ 12 (beBytes x0) (List.getElem?_set_self hr) (by simp [beBytes]) (by decide)
-  rw [w3, List.set_set]
-  simp [beBytes]
+  have hs : ∀ bs, (mem.set r ⟨name, bs, true⟩)[r]? = some ⟨name, bs, true⟩ := fun bs => List.getElem?_set_self hr
+  refine ⟨mem.set r ⟨name, beBytes x3 ++ [d4, d5, d6, d7, d8, d9, d10, d11, d12, d13, d14, d15], true⟩,
+    mem.set r ⟨name, beBytes x3 ++ (beBytes x2 ++ [d8, d9, d10, d11, d12, d13, d14, d15]), true⟩,
+    mem.set r ⟨name, beBytes x3 ++ (beBytes x2 ++ (beBytes x1 ++ [d12, d13, d14, d15])), true⟩, ?_, ?_, ?_, ?_⟩
+  · have w := write_region mem r name _ 0 (beBytes x3) hm (by simp [beBytes]) (by decide)
+    rw [Nat.add_zero] at w
+    rw [w]; simp [beBytes]
+  · rw [write_region _ r name _ 4 (beBytes x2) (hs _) (by simp [beBytes]) (by decide), List.set_set]
+    simp [beBytes]
+  · rw [write_region _ r name _ 8 (beBytes x1) (hs _) (by simp [beBytes]) (by decide), List.set_set]
+    simp [beBytes]
+  · rw [write_region _ r name _ 12 (beBytes x0) (hs _) (by simp [beBytes]) (by decide), List.set_set]
+    simp [beBytes]
 
 /-! ### the specification side -/
 
@@ -197,6 +198,15 @@ theorem arg0 : arg 0 = 17179869184 := by decide
 theorem arg1 : arg 1 = 21474836480 := by decide
 theorem arg2 : arg 2 = 25769803776 := by decide
 
+def frameTab : List (String × Nat) := [("rk", arg 0), ("dst", arg 1), ("src", arg 2)]
+theorem frame_src : lookup frameTab "src" = some (regionBase 5) := by decide +kernel
+theorem frame_rk : lookup frameTab "rk" = some (regionBase 3) := by decide +kernel
+theorem frame_dst : lookup frameTab "dst" = some (regionBase 4) := by decide +kernel
+def frameTabI : List (String × Nat) := [("rk", arg 0), ("dst", arg 1), ("src", arg 1)]
+theorem frameI_src : lookup frameTabI "src" = some (regionBase 4) := by decide +kernel
+theorem frameI_rk : lookup frameTabI "rk" = some (regionBase 3) := by decide +kernel
+theorem frameI_dst : lookup frameTabI "dst" = some (regionBase 4) := by decide +kernel
+
 /-- `kernelState` (dst and src disjoint) provides the environment -/
 theorem ks_env (g v rk dst0 src : List Nat) (hg : g.length = 31) (hv : v.length = 32) (hrk : rk.length = 32)
     (hsrc : src.length = 16) (hdst : dst0.length = 16) :
@@ -208,13 +218,13 @@ theorem ks_env (g v rk dst0 src : List Nat) (hg : g.length = 31) (hv : v.length 
   sb1 := read_sbox _ rfl 1 (by decide)
   sb2 := read_sbox _ rfl 2 (by decide)
   sb3 := read_sbox _ rfl 3 (by decide)
-  fSrc := by decide
+  fSrc := frame_src
   srcLt := by decide
   srcR := fun k hk => read_region _ 5 ⟨"src", src, false⟩ (4 * k) 4 rfl (by simp only [hsrc]; omega) (by omega)
-  fRk := by decide
+  fRk := frame_rk
   rkLt := by decide
   rkR := fun i hi => read_rk _ 3 rk rfl hrk i hi
-  fDst := by decide
+  fDst := frame_dst
   dstLt := by decide
   dstM := rfl
   dstLen := hdst
@@ -230,13 +240,13 @@ theorem ksi_env (g v rk buf : List Nat) (hg : g.length = 31) (hv : v.length = 32
   sb1 := read_sbox _ rfl 1 (by decide)
   sb2 := read_sbox _ rfl 2 (by decide)
   sb3 := read_sbox _ rfl 3 (by decide)
-  fSrc := by decide
+  fSrc := frameI_src
   srcLt := by decide
   srcR := fun k hk => read_region _ 4 ⟨"dst", buf, true⟩ (4 * k) 4 rfl (by simp only [hbuf]; omega) (by omega)
-  fRk := by decide
+  fRk := frameI_rk
   rkLt := by decide
   rkR := fun i hi => read_rk _ 3 rk rfl hrk i hi
-  fDst := by decide
+  fDst := frameI_dst
   dstLt := by decide
   dstM := rfl
   dstLen := hbuf
@@ -269,7 +279,7 @@ theorem kernelX1_eq_spec (g v rk dst0 src : List Nat)
   simp only at hmem
   subst hmem
   simp only [ok_bind]
-  rw [dst_after g3 v3 _ sy3 fr3 _ rfl rfl rfl _ rfl (by decide)]
+  rw [dst_after g3 v3 _ sy3 fr3 _ rfl rfl rfl _ rfl (by show (4 : Nat) < 6; decide)]
   rfl
 
 /-- **`cryptoBlockAsm` called in place** (`dst == src`, as `Encrypt(b, b)` does): the buffer ends up holding the
@@ -289,7 +299,7 @@ theorem kernelX1_inplace_eq_spec (g v rk buf : List Nat)
   simp only at hmem
   subst hmem
   simp only [ok_bind]
-  rw [dst_after g3 v3 _ sy3 fr3 _ rfl rfl rfl _ rfl (by decide)]
+  rw [dst_after g3 v3 _ sy3 fr3 _ rfl rfl rfl _ rfl (by show (4 : Nat) < 5; decide)]
   rfl
 
 end SMGo.Proofs.ISAValArm64
